@@ -15,3 +15,133 @@ use crate::{
 pub fn plane_sector_parts(angle_start: Angle, angle_sweep: Angle) -> (u8, Point, Point) {
     PlaneSector::new(angle_start, angle_sweep).verif_parts()
 }
+
+// ---- thick stroke join machinery (line extents, intersections, joins, thick segments) ----
+
+use crate::primitives::{
+    common::{JoinKind, LineJoin, LineSide, LinearEquation, StrokeOffset, ThickSegment},
+    line::intersection_params::{Intersection, IntersectionParams},
+    Line, Rectangle,
+};
+
+fn verif_stroke_offset(code: u8) -> StrokeOffset {
+    match code {
+        1 => StrokeOffset::Left,
+        2 => StrokeOffset::Right,
+        _ => StrokeOffset::None,
+    }
+}
+
+fn verif_side(side: LineSide) -> u8 {
+    match side {
+        LineSide::Left => 0,
+        LineSide::Right => 1,
+    }
+}
+
+/// Returns the left and right edge of a thick line (`Line::extents`).
+///
+/// `offset`: 0 = `StrokeOffset::None`, 1 = `Left`, 2 = `Right`.
+pub fn line_extents(line: Line, width: u32, offset: u8) -> (Line, Line) {
+    line.extents(width, verif_stroke_offset(offset))
+}
+
+/// Returns the normal vector and origin distance of `LinearEquation::from_line(line)` and the
+/// distance of `point` from it.
+pub fn linear_equation(line: Line, point: Point) -> (Point, i32, i32) {
+    let le = LinearEquation::from_line(&line);
+
+    (le.normal_vector, le.origin_distance, le.distance(point))
+}
+
+/// Returns the result of `IntersectionParams::from_lines(&line1, &line2)`: the intersection point
+/// and outer side (0 = left, 1 = right), or `None` for colinear lines, and the value of
+/// `nearly_colinear_has_error`.
+pub fn line_intersection(line1: Line, line2: Line) -> (Option<(Point, u8)>, bool) {
+    let params = IntersectionParams::from_lines(&line1, &line2);
+
+    let intersection = match params.intersection() {
+        Intersection::Point { point, outer_side } => Some((point, verif_side(outer_side))),
+        Intersection::Colinear => None,
+    };
+
+    (intersection, params.nearly_colinear_has_error())
+}
+
+fn verif_join(which: u8, p1: Point, p2: Point, p3: Point, width: u32, offset: u8) -> LineJoin {
+    let offset = verif_stroke_offset(offset);
+
+    match which {
+        0 => LineJoin::start(p1, p2, width, offset),
+        1 => LineJoin::end(p1, p2, width, offset),
+        _ => LineJoin::from_points(p1, p2, p3, width, offset),
+    }
+}
+
+/// Returns a line join: `which` 0 = `LineJoin::start(p1, p2)`, 1 = `LineJoin::end(p1, p2)`,
+/// 2 = `LineJoin::from_points(p1, p2, p3)`.
+///
+/// The result is the join kind (0 = miter, 1 = bevel, 2 = degenerate, 3 = colinear, 4 = start,
+/// 5 = end), the outer side (0 = left, 1 = right, 2 = not applicable) and the corners
+/// `[first_edge_end.left, first_edge_end.right, second_edge_start.left, second_edge_start.right]`.
+pub fn line_join(
+    which: u8,
+    p1: Point,
+    p2: Point,
+    p3: Point,
+    width: u32,
+    offset: u8,
+) -> (u8, u8, [Point; 4]) {
+    let join = verif_join(which, p1, p2, p3, width, offset);
+
+    let (kind, side) = match join.kind {
+        JoinKind::Miter => (0, 2),
+        JoinKind::Bevel { outer_side } => (1, verif_side(outer_side)),
+        JoinKind::Degenerate { outer_side } => (2, verif_side(outer_side)),
+        JoinKind::Colinear => (3, 2),
+        JoinKind::Start => (4, 2),
+        JoinKind::End => (5, 2),
+    };
+
+    (
+        kind,
+        side,
+        [
+            join.first_edge_end.left,
+            join.first_edge_end.right,
+            join.second_edge_start.left,
+            join.second_edge_start.right,
+        ],
+    )
+}
+
+/// Returns the edges bounding box and the x range of the intersection with the scanline `y` of
+/// the thick segment between `p[1]` and `p[2]`.
+///
+/// The start join is `LineJoin::from_points(p[0], p[1], p[2])` if `has_previous` is set and
+/// `LineJoin::start(p[1], p[2])` otherwise, the end join is
+/// `LineJoin::from_points(p[1], p[2], p[3])` if `has_next` is set and `LineJoin::end(p[1], p[2])`
+/// otherwise.
+pub fn thick_segment(
+    p: [Point; 4],
+    has_previous: bool,
+    has_next: bool,
+    width: u32,
+    offset: u8,
+    y: i32,
+) -> (Rectangle, core::ops::Range<i32>) {
+    let start_join = if has_previous {
+        verif_join(2, p[0], p[1], p[2], width, offset)
+    } else {
+        verif_join(0, p[1], p[2], p[2], width, offset)
+    };
+    let end_join = if has_next {
+        verif_join(2, p[1], p[2], p[3], width, offset)
+    } else {
+        verif_join(1, p[1], p[2], p[2], width, offset)
+    };
+
+    let segment = ThickSegment::new(start_join, end_join);
+
+    (segment.edges_bounding_box(), segment.intersection(y).x)
+}
